@@ -22,7 +22,7 @@ func RootPath(v ssa.Value) (ssa.Value, string) {
 			st := derefStruct(x.X.Type())
 			name := "#" + strconv.Itoa(x.Field)
 			if st != nil && x.Field < st.NumFields() {
-				name = st.Field(x.Field).Name()
+				name = Ident(st.Field(x.Field).Name())
 			}
 			parts = append(parts, "."+name)
 			v = x.X
@@ -31,7 +31,7 @@ func RootPath(v ssa.Value) (ssa.Value, string) {
 			st, _ := x.X.Type().Underlying().(*types.Struct)
 			name := "#" + strconv.Itoa(x.Field)
 			if st != nil && x.Field < st.NumFields() {
-				name = st.Field(x.Field).Name()
+				name = Ident(st.Field(x.Field).Name())
 			}
 			parts = append(parts, "."+name)
 			v = x.X
@@ -653,7 +653,7 @@ func (d *Deriv) HasFieldNamed(typ, name string) bool {
 			continue
 		}
 		fv := FieldOf(n)
-		if fv == nil || fv.Name() != name {
+		if fv == nil || Ident(fv.Name()) != Ident(name) {
 			continue
 		}
 		if typ == "" {
@@ -662,7 +662,7 @@ func (d *Deriv) HasFieldNamed(typ, name string) bool {
 		if p, ok := base.Underlying().(*types.Pointer); ok {
 			base = p.Elem()
 		}
-		if nn, ok := base.(*types.Named); ok && nn.Obj().Name() == typ {
+		if nn, ok := base.(*types.Named); ok && Ident(nn.Obj().Name()) == typ {
 			return true
 		}
 	}
